@@ -169,7 +169,9 @@ def decorate_tags(rng, ptx, mode="mixed", two_haps=False):
     """consistent tagging in the PretextView model: returns ptx with tags added (in place on a deep copy)"""
     import copy
     ptx = copy.deepcopy(ptx)
-    sexes = ["X", "Y", "W", "Z", "B1", "X1"]
+    # name tags (`[A-Z]\d*|[IVX_]+|\d+[A-Z]+`): besides the usual sex / B chromosomes also tags that START WITH A CHARACTER OF THE AUTOSOME PREFIX
+    # (U, S, P, E, R, _ for "SUPER_": UV sex chromosomes exist) — a prefix stripped as a character set instead of as a prefix shows only there (wave 11, C10i)
+    sexes = ["X", "Y", "W", "Z", "B1", "X1"] + rng.sample(["U", "V", "U1", "S", "E2", "R", "P1", "_I", "2U"], 3)
     target_mode = mode == "target" or (mode == "mixed" and rng.random() < 0.12)
     target_started = False
     haps = ["Hap1", "Hap2"] if two_haps else []
@@ -1177,7 +1179,7 @@ def make_case(rng, kind, **kw):
         unit = max(40, math.ceil(beta) * 8)
         inp, ptx, oid = [], [], 0
         for g in range(rng.randint(1, 3)):
-            nametag = rng.choice([None, "X", "Z", "B1"]) if g == 0 else rng.choice([None, None, "W"])
+            nametag = rng.choice([None, "X", "Z", "B1", "U", "S1"]) if g == 0 else rng.choice([None, None, "W", "R"])
             special = rng.choice(["FalseDuplicate", "Contaminant", None]) if nametag else rng.choice([None, "FalseDuplicate"])
             for h in haps:
                 n = len(inp) + 1
